@@ -311,6 +311,20 @@ impl GenericsAnalyzer {
             }
             syn::Type::Paren(paren) => self.extract_deps_from_type(input_sig, paren.elem.as_ref()),
             syn::Type::Group(group) => self.extract_deps_from_type(input_sig, group.elem.as_ref()),
+            // `&dyn Tr` is `&'a (dyn Tr + 'a)`; in the header of an impl, `dyn Tr` would be `dyn Tr + 'static`
+            syn::Type::TraitObject(trait_object)
+                if !trait_object
+                    .bounds
+                    .iter()
+                    .any(|bound| matches!(bound, syn::TypeParamBound::Lifetime(_))) =>
+            {
+                let mut trait_object = trait_object.clone();
+                trait_object.bounds.push(syn::parse_quote! { '_ });
+                self.deps_with_generics(
+                    FnDeps::Concrete(Box::new(syn::Type::TraitObject(trait_object))),
+                    &input_sig.generics,
+                )
+            }
             ty => {
                 self.deps_with_generics(FnDeps::Concrete(Box::new(ty.clone())), &input_sig.generics)
             }
